@@ -490,7 +490,7 @@ theorem prepareBound_raises_iff (user : Rat) (f n : Nat) :
 theorem mcPrepare_generated (bound : Rat) (f : Nat) :
     mcPrepareMin bound (f : Int) = bound * (f : Rat) ∧ mcPrepareMax bound (f : Int) = bound * (f : Rat)
     ∧ mcPrepareRightMin bound (f : Int) = bound * (f : Rat) ∧ mcPrepareRightMax bound (f : Int) = bound * (f : Rat) := by
-  refine ⟨?_, ?_, ?_, ?_⟩ <;> simp [mcPrepareMin, mcPrepareMax, mcPrepareRightMin, mcPrepareRightMax]
+  refine ⟨?_, ?_, ?_, ?_⟩ <;> simp only [mcPrepareMin, mcPrepareMax, mcPrepareRightMin, mcPrepareRightMax] <;> push_cast <;> ring
 
 /-- the generated glue chained: `run_prepare` then `k` times `matching_cost_prepare` is the model's `boundAfter` -/
 theorem boundAfter_generated (user : Rat) (f n k : Nat) :
@@ -500,10 +500,10 @@ theorem boundAfter_generated (user : Rat) (f n k : Nat) :
   refine ⟨?_, ?_, ?_⟩
   · simp only [mcPrepareMin, boundAfter]
     push_cast
-    rw [pow_succ, mul_assoc]
+    ring
   · simp only [mcPrepareMax, boundAfter]
     push_cast
-    rw [pow_succ, mul_assoc]
+    ring
   · simp [boundAfter]
 
 theorem prepareRight_generated (dmin dmax : Rat) :
